@@ -237,7 +237,7 @@ def rule_r5(ctx: Ctx) -> None:
             if isinstance(e, ast.SetComp):
                 return reduced(e.elt)
             if isinstance(e, ast.Set):
-                return all(reduced(x) for x in e.elts)
+                return all(reduced(x) or (isinstance(x, ast.Constant) and x.value == 0) for x in e.elts)  # 0 % d == 0
             if isinstance(e, ast.Call) and dotted(e.func) == "set" and len(e.args) == 1:
                 a = e.args[0]
                 if isinstance(a, ast.Call) and dotted(a.func) == "map" and isinstance(a.args[0], ast.Lambda):
@@ -277,6 +277,10 @@ def rule_r6(ctx: Ctx) -> None:
         if fn is None:
             raise AnalysisError("anchor %s.modulo missing" % cname)
         res = prove_count_reduction(ctx, c, fn)
+        if res.get("collection") is None and "error" in res:
+            # the residues are no longer obtained by enumerating multicombinations: this rule has nothing to instantiate on,
+            # and no other argument for the exactness of a different algorithm is within reach of this analysis
+            raise AnalysisError("C01.R6 cannot be instantiated on %s: %s" % (fn.qualname, res["error"]))
         ctx.count(len(res.get("alternatives", [])))
         ctx.check(bool(res.get("exact")) and res.get("collection_is_residue_set", False), fn.short, "count = %s over %s" % (res.get("count_expr"), res.get("collection")), "the reduced repetition count must give the same residues as the true count for every divisor and residue set", fn.where(), res)
         # the summed elements are reduced modulo the divisor (R5 covers it); the expand() twin uses the true count
